@@ -2,7 +2,7 @@
 Every case is (source, predicate): the predicate is evaluated on the outcome (result r or
 exception exc) and is what the replay file re-evaluates."""
 from decimal import Decimal
-from .common import namespace, pools, seed_rng
+from .common import namespace, pools, seed_rng, shape_zoo
 
 PRELUDE = '''
 import measured
@@ -55,7 +55,11 @@ def run(tier, seed):
     n = 300 if tier == "quick" else 20000
     failures, samples, evals, distinct = [], [], 0, set()
 
+    zoo = shape_zoo(ns)
+
     def unit_expr():
+        if rng.random() < 0.3:
+            return rng.choice(zoo)
         parts = []
         for _ in range(rng.choice([1, 1, 2, 3])):
             u = rng.choice(units)
